@@ -24,9 +24,34 @@ def _has_sym(x):
     return False
 
 
+class SymArray(real_np.ndarray):
+    """object ndarray whose astype(float/complex) is the identity (values stay exact symbolic reals/complexes)"""
+
+    def astype(self, dtype, *a, **k):
+        if self.dtype == object and real_np.dtype(dtype).kind in "fc":
+            return self
+        return real_np.ndarray.astype(self, dtype, *a, **k)
+
+    def __array_wrap__(self, arr, context=None, return_scalar=False):
+        # reductions must yield the scalar element (as for plain ndarrays), not a 0-d subclass instance
+        if isinstance(arr, real_np.ndarray) and arr.ndim == 0:
+            return arr[()]
+        if isinstance(arr, real_np.ndarray) and arr.dtype != object:
+            return arr.view(real_np.ndarray)
+        return arr.view(SymArray) if isinstance(arr, real_np.ndarray) else arr
+
+
+def _symview(r):
+    if isinstance(r, real_np.ndarray) and r.dtype == object and not isinstance(r, SymArray):
+        return r.view(SymArray)
+    return r
+
+
 def _objectify(r):
     if isinstance(r, real_np.ndarray) and r.dtype.kind in "iuf":
-        return r.astype(object)
+        return r.astype(object).view(SymArray)
+    if isinstance(r, real_np.ndarray) and r.dtype == object and not isinstance(r, SymArray):
+        return r.view(SymArray)
     return r
 
 
@@ -82,19 +107,19 @@ class NPProxy(types.ModuleType):
             return real_np.zeros(shape, dtype=dtype, **kw)
         a = real_np.empty(shape, dtype=object)
         a.fill(0)
-        return a
+        return a.view(SymArray)
 
     def ones(self, shape, dtype=None, **kw):
         if dtype is not None and real_np.dtype(dtype).kind in "iub":
             return real_np.ones(shape, dtype=dtype, **kw)
         a = real_np.empty(shape, dtype=object)
         a.fill(1)
-        return a
+        return a.view(SymArray)
 
     def full(self, shape, fill_value, dtype=None, **kw):
         a = real_np.empty(shape, dtype=object)
         a.fill(fill_value)
-        return a
+        return a.view(SymArray)
 
     def array(self, x, *a, **k):
         if k.get("dtype") is not None or a:
@@ -179,7 +204,7 @@ class NPProxy(types.ModuleType):
     def abs(self, x):
         if is_sym(x):
             return abs(x)
-        return real_np.abs(x)
+        return _symview(real_np.abs(x))
 
     def sum(self, a, *args, **kw):
         return real_np.sum(a, *args, **kw)
